@@ -247,6 +247,7 @@ func replenish(addr string, round int) {
 }
 
 type vector struct {
+	pre    [][]string // requests sent first on the same connection (they put it into a state, e.g. subscriber mode); one reply each
 	args   []string
 	raw    []byte // raw bytes instead of a framed command
 	pubsub bool   // turns the connection into a pub/sub connection
@@ -272,9 +273,19 @@ func (ch *child) send(v vector, member int) result {
 	if payload == nil {
 		payload = frame(v.args)
 	}
+	r := bufio.NewReader(c)
+	for _, pre := range v.pre {
+		c.SetWriteDeadline(time.Now().Add(2 * time.Second))
+		c.Write(frame(pre))
+		if o := readReply(r, c, 5*time.Second); o != "reply" && o != "error" {
+			if ch.dead() {
+				return result{outcome: "crash"}
+			}
+			return result{outcome: o}
+		}
+	}
 	c.SetWriteDeadline(time.Now().Add(2 * time.Second))
 	c.Write(payload)
-	r := bufio.NewReader(c)
 	res := result{outcome: readReply(r, c, 1500*time.Millisecond)}
 	if res.outcome == "timeout" && v.raw == nil && !v.pubsub && r.Buffered() == 0 && !ch.dead() {
 		// nothing has arrived within the watchdog's 1.5 s.  A busy machine is not a wedged member: a framed request
@@ -550,6 +561,16 @@ func TestC16(t *testing.T) {
 	// unknown commands and an empty command
 	vs = append(vs, vector{args: []string{"nosuch"}}, vector{args: []string{""}}, vector{args: []string{"dm.nosuch", "d", "k"}},
 		vector{args: []string{"pubsub"}}, vector{args: []string{"PUBSUB"}}, vector{args: []string{"pubsub", "nosuch"}})
+	// a connection in subscriber mode: what (P)UNSUBSCRIBE, (P)SUBSCRIBE, PING, PUBLISH and anything else do there depends on
+	// the subscriptions the connection holds
+	for _, pre := range [][][]string{{{"subscribe", "news"}}, {{"psubscribe", "n*"}}, {{"subscribe", "news"}, {"psubscribe", "n*"}},
+		{{"subscribe", "news"}, {"unsubscribe", "news"}}} {
+		for _, cmd := range []string{"unsubscribe", "punsubscribe", "subscribe", "psubscribe", "UNSUBSCRIBE", "ping", "publish", "quit", "dm.get", "pubsub"} {
+			for _, a := range [][]string{{}, {"news"}, {"other"}, {"n*"}, {""}, {"\x00\xff"}, {"news", "other"}, {"other", "other"}, {"numpat"}, {"d", "k1"}} {
+				vs = append(vs, vector{pre: pre, args: append([]string{cmd}, a...), pubsub: true})
+			}
+		}
+	}
 	exhaustive := len(vs)
 	// random vectors over the union of the alphabets
 	var pool []string
@@ -639,11 +660,14 @@ func TestC16(t *testing.T) {
 			nontrivial++
 		}
 		ev := trace.Ev{"t": "req", "n": n + 1, "cmd": cmdName, "nargs": nargs, "framed": framed, "outcome": res.outcome,
-			"pingok": res.pingok, "otherok": res.otherok, "classes": classes}
+			"pingok": res.pingok, "otherok": res.otherok, "classes": classes, "stateful": len(v.pre) > 0}
 		if res.outcome != "reply" && res.outcome != "error" || !res.pingok {
 			// keep the exact bytes of a request that was not answered
 			if v.raw == nil {
 				ev["args"] = fmt.Sprintf("%q", v.args)
+				if len(v.pre) > 0 {
+					ev["args"] = fmt.Sprintf("after %q: %q", v.pre, v.args)
+				}
 			} else {
 				ev["args"] = fmt.Sprintf("%q", v.raw)
 			}
